@@ -5,5 +5,5 @@ cd "$(dirname "$0")"
 export GOFLAGS=-mod=mod GOPROXY=off
 unset GOTOOLCHAIN GOSUMDB 2>/dev/null || true
 mkdir -p bin evidence replays
-(cd harness && go build -tags verif -o ../bin/vcheck ./cmd/vcheck)
+(cd harness && go build -tags verif ./... )
 echo "setup ok"
